@@ -463,13 +463,14 @@ def wtie_exprs(w, n):
     kdl = coq_list([f"({coq_nat(idm(c))}, {coq_nat(k)})" for c, k in kd])
     algo = "true" if w["algo"] == "rec" else "false"
     run = (f"let cs := crun {coq_nat(rid)} (empty_store, None) {body} in "
-           f"[cobs true cs; trunc_obs {algo} {W_TMP} {kdl} {coq_nat(rid)} cs]")
+           f"([cobs true cs; trunc_obs {algo} {W_TMP} {kdl} {coq_nat(rid)} cs], "
+           f"trunc_info {algo} {W_TMP} {kdl} {coq_nat(rid)} cs)")
     return run, idm
 
 
 def wtie_compare(w, mo, idm):
     import wmodel
-    (ok0, o0, c0), (ok1, o1, c1) = mo
+    ((ok0, o0, c0), (ok1, o1, c1)), (hyps, post, trace) = mo
     m0, m1 = wmodel.model_obs_to_py(o0, idm), wmodel.model_obs_to_py(o1, idm)
     d = wmodel.compare_snapshot(w["pre_snap"], m0)
     if d:
@@ -489,7 +490,17 @@ def wtie_compare(w, mo, idm):
         tol = 1e-8 * max(1.0, float(np.max(np.abs(raw))) if raw.size else 1.0)
         if val.shape != raw.shape or not np.allclose(val, raw, rtol=1e-8, atol=tol):
             return f"after {w['algo']}: tensor {kk} differs from the model diagram evaluated on the recorded atoms"
+    # the order in which the bonds are handled: trace of the model recursion / the model's update path
+    if w["ok"] and [idm.r[c] for c in trace] != w["visits"]:
+        return f"{w['algo']}: bonds handled in the order {w['visits']}, model {[idm.r[c] for c in trace]}"
     return None
+
+
+def wtie_obligations(mo):
+    """per-instance kernel-checked facts: (hypotheses of C10_rec_* / C10_svd_* hold on the start store,
+    invariant and supplied dimensions hold on the result)"""
+    _obs, (hyps, post, _trace) = mo
+    return hyps is True, post is True
 # ==== END Layer-W tie ================================================================================
 
 
@@ -506,7 +517,8 @@ class C10(Prop):
             "tsvd: random real/complex tensors (2..4 legs, dims 1..4, optional exact low rank), random leg bipartition and order, "
             "random parameters, the three contraction modes. "
             "tree: random trees (1..7 nodes), random bond/physical dimensions, random norm scale, both routines, random "
-            "parameters. non-trivial: sv = at least two values, tsvd = matricisation with both sides >= 2, tree = at least one bond; "
+            "parameters; every tree case is also built through wmodel.Driver (shuffled legs, optional canonical form at the root / "
+            "another node / none) and run step-tied against the Coq programs of TTN/TruncTree.v. non-trivial: sv = at least two values, tsvd = matricisation with both sides >= 2, tree = at least one bond; "
             "distinct by content")
     clauses = [
         ("F", "kept part is a non-empty prefix of the descending spectrum, second component the complementary suffix, "
@@ -521,8 +533,29 @@ class C10(Prop):
         ("F", "parameter validation: accepted iff max_bond_dim is inf or a positive int and each tolerance is >= 0 or infinite "
               "(or nan); TypeError exactly for non-int non-inf (C10_params_validation, C10_params_type_error, C10_params_bond_ok)"),
         ("F", "scalar step of the error bound: sum of squares of the discarded values <= (their sum)^2 (C10_discarded_weight)"),
-        ("V", "tree level, recursive_truncation and svd_truncation: identifiers and parent/child relations preserved, one "
-              "truncation per bond, every bond in [1, max_bond_dim]: runtime check on random states (not a theorem)"),
+        ("F", "tree level, recursive_truncation as a program over the symbolic store (TTN/TruncTree.v, every tree, every supplied "
+              "kept dimension): the result satisfies the store invariant, has the same identifiers, parent pointers, children sets "
+              "and root, all temporary identifiers (uuid and bond-named) are gone, the recorded centre is the root "
+              "(C10_rec_structure); every (child, parent) bond ends with exactly the supplied dimension, hence in "
+              "[1, max_bond_dim] when the dimensions come from the scalar rule (C10_rec_bonds, C10_rec_bonds_select; per "
+              "recursion step C10_truncate_node_effect: only the bonds below the node change); every bond is truncated exactly "
+              "once (C10_rec_trace_erase, C10_rec_trace_coverage); the recursion fuel suffices (C10_rec_fuel)"),
+        ("F", "tree level, svd_truncation: invariant, identifiers, parents, children sets and root preserved, temporary gone, "
+              "recorded centre = parent of the last node handled (C10_svd_structure); one contract_and_split_with_parent gives "
+              "the bond above the node exactly the supplied dimension, records the parent as centre and leaves every other "
+              "node's parent and bond dimension alone (C10_svd_step_bond); the update path handles every node that has a parent "
+              "exactly once, root last and dropped (C10_svd_path_coverage)"),
+        ("I", "per explored tree instance (vm_compute on the tied model): the hypotheses of the theorems hold on the store the "
+              "routine starts from (trunc_hyps: wfb, fresh temporaries); the result store passes wfb and every truncated bond has "
+              "the supplied dimension -- for svd_truncation the FINAL dimensions are only established this way (the centre moves "
+              "between two steps are not proved to stay off the bonds already truncated)"),
+        ("V", "tree level, model = code: on every tree case the model program, run on the same build sequence with the observed "
+              "kept dimensions, reproduces the implementation exactly (node dict order, parents, children order, leg "
+              "permutations, recorded and raw shapes, tensor dict order, root, recorded centre, order in which the bonds are "
+              "handled, raising vs finishing) and every raw tensor equals its model diagram evaluated on the recorded kernel "
+              "factors (differential tie, not a theorem)"),
+        ("V", "tree level, oracle on random states (independent dense contraction): identifiers and parent/child relations "
+              "preserved, one truncation per bond, every bond in [1, max_bond_dim]"),
         ("V", "tree level: identity (dense state unchanged to 1e-10*max(1,norm)) when no value is discarded on any bond: "
               "runtime check against an independent dense contraction"),
         ("V", "tree level, no renormalisation: ||psi - psi'|| <= (sum of all discarded values) * max(1, ||psi||): runtime check; "
@@ -539,12 +572,19 @@ class C10(Prop):
         "renormalised values are compared with the correctly rounded double of the model's exact rational (IEEE-754 division)",
         "tree level: numpy einsum dense contraction (harness/util.py) as the reference; truncate_singular_values is observed "
         "through a recording wrapper installed on pytreenet.util.tensor_splitting",
+        "tree level, Layer-W tie: kernel factors (QR factors, truncated-SVD factors, the projector pair handed to "
+        "split_node_replace, the identity of insert_identity) enter the model as opaque atoms recorded at the boundary of "
+        "pytreenet.core.ttn; the kept dimension per bond is read from the recorded truncate_singular_values calls; the values of "
+        "the factors (isometry, projector) are outside the model and covered by the dense oracle only",
     ]
     assumptions = [
         "spectra handed to truncate_singular_values are non-increasing and non-negative (numpy.linalg.svd contract); the model "
         "is total and is also tied on unsorted / negative inputs, but the prefix theorems assume a descending list",
-        "svd_truncation is called on a state that has an orthogonality centre (it raises otherwise); recursive_truncation "
-        "canonicalises itself",
+        "svd_truncation is called on a state that has an orthogonality centre (it raises otherwise; model and code agree on "
+        "that); recursive_truncation canonicalises itself",
+        "recursive_truncation names its temporaries after the bond ('<c>_identity_<n>', '<n>_projectorstar_<c>', "
+        "'<n>_projector_<c>'): the caller's identifiers must not collide with them and they must differ from each other "
+        "(tmp_fresh / tmp_inj in the theorems; true for the harness' identifiers, checked per instance)",
         "parameters outside the validated domain (negative finite tolerances, max_bond_dim=0, nan) are only reachable by "
         "assigning dataclass attributes after construction; they are tied to the model but outside the property oracle",
     ]
@@ -572,6 +612,8 @@ class C10(Prop):
         self.dropped = Counter()
         self.boundary_dev = Counter()
         self.wtie_stats = getattr(self, "wtie_stats", Counter())
+        if stream == "main":
+            self.wtie_obl = [0, 0, []]
         F = Fraction
         if stream == "main":
             if ctx.thorough():
@@ -1078,6 +1120,15 @@ class C10(Prop):
                 if d:
                     return d
                 self.wtie_stats["tied:" + ob["w"]["algo"] + (":raised" if not ob["w"]["ok"] else "")] += 1
+                h, q = wtie_obligations(mw)
+                self.wtie_obl[0] += 2
+                self.wtie_obl[1] += int(h) + int(q)
+                if not h:
+                    self.wtie_obl[2].append(f"tree seed {case['seed']} ({ob['w']['algo']}): hypotheses of the tree-level theorems "
+                                            "(wfb / fresh temporaries) not met on the start store")
+                if not q:
+                    self.wtie_obl[2].append(f"tree seed {case['seed']} ({ob['w']['algo']}): result store violates wfb or a truncated "
+                                            "bond does not have the supplied dimension")
             # ---- END Layer-W tie -----------------------------------------------------------------
             return None
         verdict, r = mo["r"]
@@ -1326,3 +1377,7 @@ class C10(Prop):
 
     def classify(self, case, what, known):
         return None
+
+    def extra_obligations(self, ctx):
+        n, ok, fails = getattr(self, "wtie_obl", [0, 0, []])
+        return n, ok, fails[:5]
